@@ -1499,7 +1499,7 @@ def run(ctx) -> Result:
     ]
     rng = ctx.rng
     global _POOL_SIZE  # noqa: PLW0603
-    _POOL_SIZE = 12 if ctx.thorough else 5
+    _POOL_SIZE = int(os.environ.get("VERIF_C05_PROCS", 12 if ctx.thorough else 5))
     corpus = load_corpus()
     check_cases(res, corpus, rng)
     res.count("corpus", len(corpus))
